@@ -149,9 +149,12 @@ def rule_pipeline(ctx, rep, rid="R-C06-pipeline"):
     else:
         r.finding("resolve_types|first-transform", where, "the first transform is %s, not the topological sort" % (order[0] if order else "?"))
     # (2) every extend() of the library happens before the first indirect (transform) call
-    ext = [c for c in b.calls() if c.callee == "ironplc_dsl::common::Library::extend"]
-    ind = [c for c in b.calls() if c.callee is None]
-    if ext and ind and all(not (c.bb in b.reachable(i.target) if i.target is not None else False) for c in ext for i in ind):
+    #     (calls inside closures count at the place where the closure is consumed: `sources.iter().fold(.., |l, x| l.extend(..))`)
+    from vlib import units
+    uc = units.calls_in_unit(ctx, b)
+    ext = [site for bd, c, site in uc if c.callee == "ironplc_dsl::common::Library::extend" and site is not None]
+    ind = [site for bd, c, site in uc if c.callee is None and not (c.u or "") and site is not None]
+    if ext and ind and all(not (e.bb in b.reachable(i.target) if i.target is not None else False) and e is not i for e in ext for i in ind):
         r.ok("resolve_types|concatenate-before-transform", where)
     else:
         r.finding("resolve_types|concatenate-before-transform", where, "a library is appended after (or interleaved with) a transform, or the shape changed")
